@@ -59,6 +59,28 @@ fn roll_forms(data: &[u8], cut: usize) -> Vec<(&'static str, u32)> {
         }
     }
     out.push(("+= &[u8;3] / += u8", h.value()));
+    macro_rules! arrays {
+        ($n:literal, $name:literal) => {{
+            let mut h = RollingHash::new();
+            let mut it = data.chunks_exact($n);
+            for ch in &mut it {
+                let arr: &[u8; $n] = ch.try_into().unwrap();
+                h += arr;
+            }
+            h.update(it.remainder());
+            out.push(($name, h.value()));
+        }};
+    }
+    arrays!(1, "+= &[u8;1]");
+    arrays!(2, "+= &[u8;2]");
+    arrays!(6, "+= &[u8;6]");
+    arrays!(7, "+= &[u8;7]");
+    arrays!(8, "+= &[u8;8]");
+    arrays!(9, "+= &[u8;9]");
+    arrays!(13, "+= &[u8;13]");
+    arrays!(16, "+= &[u8;16]");
+    arrays!(64, "+= &[u8;64]");
+    arrays!(257, "+= &[u8;257]");
     let mut h = RollingHash::new();
     for &c in data {
         h += c;
@@ -105,6 +127,28 @@ fn fnv_forms(data: &[u8], cut: usize) -> Vec<(&'static str, u8)> {
         }
     }
     out.push(("+= &[u8;3] / += u8", h.value()));
+    macro_rules! arrays {
+        ($n:literal, $name:literal) => {{
+            let mut h = PartialFNVHash::new();
+            let mut it = data.chunks_exact($n);
+            for ch in &mut it {
+                let arr: &[u8; $n] = ch.try_into().unwrap();
+                h += arr;
+            }
+            h.update(it.remainder());
+            out.push(($name, h.value()));
+        }};
+    }
+    arrays!(1, "+= &[u8;1]");
+    arrays!(2, "+= &[u8;2]");
+    arrays!(6, "+= &[u8;6]");
+    arrays!(7, "+= &[u8;7]");
+    arrays!(8, "+= &[u8;8]");
+    arrays!(9, "+= &[u8;9]");
+    arrays!(13, "+= &[u8;13]");
+    arrays!(16, "+= &[u8;16]");
+    arrays!(64, "+= &[u8;64]");
+    arrays!(257, "+= &[u8;257]");
     let mut h = PartialFNVHash::new();
     for &c in data {
         h += c;
@@ -351,7 +395,7 @@ pub fn run(o: &Opts) -> i32 {
         o,
         rr,
         Report {
-            rule: "FNV step: every one of the 64 observable states (reached from new() by BFS) x all 256 bytes x six update forms against the low 6 bits of 32-bit FNV-1 with initial value 0x28021967 (complete). Rolling hash: at EVERY prefix of W1/W2 strings and of all trigger words (incl. value 0 with a non-zero window and 0xffffffff) against sum + position-weighted sum + shift-5-xor fold over the trailing 7 bytes recomputed from scratch; dependence on the window only (7 junk bytes then the window); the update forms (update, update_by_iter with exact-size AND inexact-size iterators - filter, take_while over a longer iterator, flat_map, chain - update_by_byte, += &[u8], += &[u8;N], += u8) agree. Two single slices of more than 4 GiB and 8 GiB (lengths beyond 32 bits) followed by more bytes. Non-trivial = string of >= 8 bytes, or an FNV (state, byte) step; distinct by content.".into(),
+            rule: "FNV step: every one of the 64 observable states (reached from new() by BFS) x all 256 bytes x six update forms against the low 6 bits of 32-bit FNV-1 with initial value 0x28021967 (complete). Rolling hash: at EVERY prefix of W1/W2 strings and of all trigger words (incl. value 0 with a non-zero window and 0xffffffff) against sum + position-weighted sum + shift-5-xor fold over the trailing 7 bytes recomputed from scratch; dependence on the window only (7 junk bytes then the window); the update forms (update, update_by_iter with exact-size AND inexact-size iterators - filter, take_while over a longer iterator, flat_map, chain - update_by_byte, += &[u8], += &[u8;N] for N in 1,2,3,6,7,8,9,13,16,64,257 i.e. below, at and above the window size, += u8) agree. Two single slices of more than 4 GiB and 8 GiB (lengths beyond 32 bits) followed by more bytes. Non-trivial = string of >= 8 bytes, or an FNV (state, byte) step; distinct by content.".into(),
             assumptions: vec![],
             exhaustive: false,
             min_nontrivial: 16_384,
